@@ -38,7 +38,8 @@ func (h *c17H) randMerkle() chainhash.Hash {
 }
 
 // randF draws header fields with the extremes of every type well represented.
-// mode: 0 = anything, 1 = regular work (fixed bits, for forks that must stay below / overtake), 2 = zero work
+// mode: 0 = anything, 1 = regular work (fixed bits, for forks that must stay below / overtake), 2 = zero work,
+// 3 = long chains (the 256-bit division of every row is what the extracted model spends its time on)
 func (h *c17H) randF(mode int) c17F {
 	r := h.c.Rng
 	f := c17F{}
@@ -51,6 +52,8 @@ func (h *c17H) randF(mode int) c17F {
 		f.bits = 0x1d00ffff
 	case 2:
 		f.bits = uint32([]int64{0, 0xffffffff, 0x1d800001, 0x00ffffff, 1}[r.Intn(5)])
+	case 3: // cheap for the model's exact arithmetic: zero or tiny work, now and then the usual one
+		f.bits = uint32([]int64{0, 0xffffffff, 0x207fffff, 0x2100ffff, 0x2200ffff, 0x1d800001, 0x20123456, 0x1d00ffff}[r.Intn(8)])
 	default:
 		f.bits = uint32(h.pickI64([]int64{0, 1, 0xffffffff, 0x1d00ffff, 0x207fffff, 0x1d800001, 0x03000001, 0x01010000, 0x2100ffff, 0xff7fffff, 0x1b0404cb},
 			func() int64 { return int64(r.Uint32()) }))
@@ -69,6 +72,9 @@ func (h *c17H) genSource(n int, kind string) []string {
 	mode := 0
 	if kind == "reorg" {
 		mode = 1
+	}
+	if kind == "direct" || kind == "long" {
+		mode = 3
 	}
 	for i := 0; i < n; i++ {
 		ops = append(ops, add+" "+h.randF(mode).String())
@@ -283,11 +289,11 @@ func (h *c17H) generate() error {
 			}
 			kind := "direct"
 			if c.Thorough() && li == 2 {
-				kind = "plain" // through Chains.Add
+				kind = "long" // through Chains.Add
 				n = b + 50 + r.Intn(100)
 			}
 			src := h.genSource(n, kind)
-			if kind == "plain" {
+			if kind == "long" {
 				src = append(src, "f 0 "+h.randF(2).String(), "o "+h.randF(0).String())
 			}
 			en, err := h.exportedLen(src)
